@@ -3,9 +3,12 @@ package c16
 import (
 	"fmt"
 	"math"
+	"net/http"
+	"strings"
 	"testing"
 	"time"
 
+	"github.com/lindb/lindb/ingestion/influx"
 	"github.com/lindb/lindb/models"
 	"github.com/lindb/lindb/series/metric"
 	"github.com/lindb/lindb/verifharness/sim/ev"
@@ -192,5 +195,35 @@ func TestRegression_InfluxNoTagsMultiField(t *testing.T) {
 	tagged.Tags = []kv{{"host", "a"}}
 	if b := mustParse(t, fInflux, []*am{&tagged}, rc); b == nil || b.Len() != 1 {
 		t.Fatalf("control (with tag) refused")
+	}
+}
+
+// Found by FuzzInfluxParse: a field value that consists of the integer suffix only ("f=i",
+// "f=u") makes parseField call strutil.ByteSlice2String on an empty slice, which panics
+// (&bytes[0]). The HTTP recovery middleware turns that into a 500: one malformed line loses
+// every valid line of the request instead of being dropped alone.
+const sigInfluxBareSuffix = "C16/influx-bare-integer-suffix-panics"
+
+func TestRegression_InfluxBareIntegerSuffixPanics(t *testing.T) {
+	defer isolatePool()()
+	body := "cpu,host=a idle_last=1 1700000000000\ncpu,host=b idle_last=i 1700000000000\ncpu,host=c idle_last=3 1700000000000\n"
+	req, _ := http.NewRequest(http.MethodPost, "http://broker/api/v1/write?db=db&precision=ms", strings.NewReader(body))
+	rows, panicked := -1, ""
+	func() {
+		defer func() {
+			if r := recover(); r != nil {
+				panicked = fmt.Sprint(r)
+			}
+		}()
+		b, err := influx.Parse(req, nil, strings.Clone("default-ns"), models.NewDefaultLimits())
+		if err != nil {
+			t.Fatalf("parse: %v", err)
+		}
+		rows = b.Len()
+	}()
+	verdict(t, sigInfluxBareSuffix, panicked != "",
+		"influx.Parse panics ("+panicked+") on the line \"cpu,host=b idle_last=i ...\"; the two valid lines of the request are lost with it")
+	if panicked == "" && rows != 2 {
+		t.Fatalf("expected the two valid lines to be accepted and the malformed one dropped, got %d rows", rows)
 	}
 }
